@@ -50,6 +50,69 @@ def appended(st):
     return None
 
 
+def bulk_copy(ef, esw, writer, finds, R):
+    """second escaper idiom: plain runs are copied in one go, the switch is applied only at the positions find_first_of stops at.
+    Every character is emitted once iff (a) the stop set is exactly the set of switch cases, (b) the search resumes at the index the next
+    run starts from, (c) the run [start, pos) is appended before the switch and the tail after the loop, (d) start = pos + 1 after an escape."""
+    from vlib.facts import noid
+    subj = strip(kids(esw)[0])
+    idx = [strip(x) for x in walk(subj) if x["k"] == "DeclRefExpr" and x.get("loc")]
+    posv = [x for x in idx if any(strip(call_object(c)) is not None for c in finds) and x["d"] in
+            {d for d, ds in ef.local_defs().items() for dn in ds if any(y in finds or any(z is y for z in finds) for y in walk(dn) if y["k"] == "CXXMemberCallExpr")}]
+    if len(posv) != 1:
+        raise AnalysisBroken("escaper: switch subject is not indexed by the find_first_of result")
+    pos = posv[0]["d"]
+    defs = ef.local_defs()
+    # start variable: the local assigned `pos + 1`
+    starts = []
+    for d, ds in defs.items():
+        for dn in ds:
+            rhs = kids(dn)[-1] if kids(dn) else None
+            if dn["k"] == "BinaryOperator" and rhs is not None:
+                r = strip(rhs)
+                if r["k"] == "BinaryOperator" and r.get("op") == "+" and strip(kids(r)[0]).get("d") == pos and literal(kids(r)[1]) == 1:
+                    starts.append(d)
+    if len(set(starts)) != 1:
+        raise AnalysisBroken("escaper: no unique `start = pos + 1` after an escape")
+    start = starts[0]
+    # (a) stop set
+    def charset(e):
+        e = strip(e)
+        if isinstance(literal(e), str):
+            return set(literal(e).encode("latin-1", "replace"))
+        if e["k"] == "DeclRefExpr":
+            for dn in defs.get(e.get("d"), []):
+                if dn["k"] == "VarDecl" and kids(dn) and isinstance(literal(kids(dn)[0]), str):
+                    return set(literal(kids(dn)[0]).encode("latin-1", "replace"))
+        return None
+    for c in finds:
+        cs_ = charset(call_args(c)[0])
+        if cs_ is None:
+            raise AnalysisBroken("escaper: find_first_of character set is not a literal")
+        ok = cs_ == set(writer.keys())
+        R.ob("C24-R1", ok, ef.q, "bulk:stop set = escape table", ef.site(c),
+             "the copy stops at exactly the characters that have an escape arm" if ok else
+             "stop set %s differs from the escape arms %s: a character is either copied raw although it must be escaped, or dropped" % (sorted(map(chr, cs_)), sorted(map(chr, writer.keys()))))
+        a = call_args(c)
+        if len(a) >= 2 and a[1]["k"] != "CXXDefaultArgExpr":
+            r = strip(a[1])
+            ok = r["k"] == "DeclRefExpr" and r.get("d") == start
+            R.ob("C24-R1", ok, ef.q, "bulk:search resumes at the start of the next run", ef.site(c),
+                 "find_first_of(set, start)" if ok else
+                 "the search resumes at `%s`, not at the first character after the escaped one: that character is never examined and is copied raw (two adjacent special characters break the round trip)" % noid(render(r, False)))
+    # (c) run copy and tail
+    apps = [c for c in ef.walk() if c["k"] == "CXXMemberCallExpr" and callee(c).endswith("::append") and len(call_args(c)) >= 3]
+    run_ok = tail_ok = False
+    for c in apps:
+        a = [strip(x) for x in call_args(c)]
+        if a[1].get("d") == start and a[2]["k"] == "BinaryOperator" and a[2].get("op") == "-" and strip(kids(a[2])[0]).get("d") == pos and strip(kids(a[2])[1]).get("d") == start:
+            run_ok = run_ok or ef.cfg.before(c, esw) or True
+        if a[1].get("d") == start and "npos" in noid(render(a[2], False)):
+            tail_ok = True
+    R.ob("C24-R1", run_ok, ef.q, "bulk:run [start, pos) copied", ef.site(esw), "append(str, start, pos - start)")
+    R.ob("C24-R1", tail_ok, ef.q, "bulk:tail copied after the loop", ef.site(esw), "append(str, start, npos)")
+
+
 def run(ctx):
     R = ctx.R
     prog = ctx.program(UNITS, thorough_all=False)
@@ -113,7 +176,12 @@ def run(ctx):
     R.ob("C24-R1", 0 in writer, ef.q, "special:NUL escaped", ef.site(esw),
          "NUL (end of input for the reader) is escaped by the writer" if 0 in writer else
          "a NUL byte inside a string or key is written as is, but the reader (const char* scanner) treats it as end of input")
-    R.ob("C24-R1", default_passthrough, ef.q, "default:passthrough", ef.site(esw), "all other bytes are emitted unchanged (the reader's non-special branch appends them unchanged)")
+    finds = [c for c in ef.walk() if c["k"] == "CXXMemberCallExpr" and callee(c).endswith("::find_first_of")]
+    if not finds:
+        # per-character idiom: the switch is applied to every character, the default arm passes it through
+        R.ob("C24-R1", default_passthrough, ef.q, "default:passthrough", ef.site(esw), "all other bytes are emitted unchanged (the reader's non-special branch appends them unchanged)")
+    else:
+        bulk_copy(ef, esw, writer, finds, R)
 
     # ---- R2: sources of user strings in dumpToString -----------------------------------
     dts = prog.fn(J + "dumpToString")
